@@ -37,7 +37,7 @@ var dialects = map[string]*dialect.Dialect{
 	"loweheiser": loweheiser.Dialect, "matrixpilot": matrixpilot.Dialect, "minimal": minimal.Dialect,
 	"paparazzi": paparazzi.Dialect, "pythonarraytest": pythonarraytest.Dialect, "standard": standard.Dialect,
 	"storm32": storm32.Dialect, "test": test.Dialect, "ualberta": ualberta.Dialect, "uavionix": uavionix.Dialect,
-	"user": userDialect,
+	"user": userDialect, "userwide": userWideDialect,
 }
 
 func dialectNames() []string {
